@@ -57,6 +57,8 @@ type VerifC16Token struct {
 	Kid   string   `json:"kid"`   // "" | good | bad
 	Exp   int64    `json:"exp"`   // seconds from now (0 = claim absent)
 	Nbf   int64    `json:"nbf"`   // seconds from now (0 = claim absent)
+	ExpAt int64    `json:"-"`     // absolute unix seconds, set by the seq family (overrides Exp)
+	NbfAt int64    `json:"-"`
 	Aud   []string `json:"aud"`   // nil = claim absent
 	Iss   string   `json:"iss"`   // "" = claim absent
 	Sub   string   `json:"sub"`
@@ -84,6 +86,7 @@ type VerifC16Case struct {
 	Sweep  bool          `json:"sweep"` // additionally one request per registered route (params := Param)
 	Param  string        `json:"param"`
 	Ops    []VerifC16Op  `json:"ops"`
+	Bound  string        `json:"bound"` // seq: which claim is put 2 s ahead: exp | nbf
 }
 
 type VerifC16Res struct {
@@ -91,6 +94,7 @@ type VerifC16Res struct {
 	P     string `json:"p"`
 	St    int    `json:"st"`
 	Route string `json:"route"` // pattern of the registered route (method+path) the router selects, "" if none
+	Ph    int    `json:"ph"`    // seq: 0 = answered before the boundary instant, 2 = sent after it, 1 = too close to tell
 }
 
 type VerifC16Sec struct {
@@ -287,10 +291,14 @@ func (s *VerifC16Session) mint(t VerifC16Token) (string, error) {
 	}
 	claims := jwt.MapClaims{}
 	now := time.Now()
-	if t.Exp != 0 {
+	if t.ExpAt != 0 {
+		claims["exp"] = t.ExpAt
+	} else if t.Exp != 0 {
 		claims["exp"] = now.Add(time.Duration(t.Exp) * time.Second).Unix()
 	}
-	if t.Nbf != 0 {
+	if t.NbfAt != 0 {
+		claims["nbf"] = t.NbfAt
+	} else if t.Nbf != 0 {
 		claims["nbf"] = now.Add(time.Duration(t.Nbf) * time.Second).Unix()
 	}
 	if t.Aud != nil {
@@ -473,6 +481,8 @@ func (s *VerifC16Session) Run(c VerifC16Case) (obs VerifC16Obs) {
 		return s.runPersist(c)
 	case "list":
 		return s.runList(c)
+	case "seq":
+		return s.runSeq(c)
 	}
 	if err := s.setAcl(c.Token.Sub, c.Acl, c.NoAcl, c.Direct); err != nil {
 		return VerifC16Obs{Outcome: "setup-error", Detail: err.Error()}
@@ -565,7 +575,7 @@ func verifNames(body []byte) ([]string, error) {
 // runList: GET /datasets as the caller, compared with the complete list the admin gets.
 func (s *VerifC16Session) runList(c VerifC16Case) VerifC16Obs {
 	obs := VerifC16Obs{Outcome: "ok", Oauth: s.jwks != nil, Res: []VerifC16Res{}}
-	for _, n := range []string{"secret", "other", "secretx", "pub.a"} {
+	for _, n := range []string{"secret", "other", "secretx", "pub.a", "pubxa", "sdb.Animal", "sdb2.Secret", "sdbx", "a+b", "aab", "a(b"} {
 		if !s.dhi.dsManager.IsDataset(n) {
 			if _, err := s.dhi.dsManager.CreateDataset(n, &server.CreateDatasetConfig{}); err != nil {
 				return VerifC16Obs{Outcome: "setup-error", Detail: err.Error()}
@@ -596,6 +606,58 @@ func (s *VerifC16Session) runList(c VerifC16Case) VerifC16Obs {
 	if st == 200 {
 		if obs.Listed, err = verifNames(body); err != nil {
 			return VerifC16Obs{Outcome: "setup-error", Detail: err.Error()}
+		}
+	}
+	return obs
+}
+
+// runSeq: the same bearer string before and after its exp (or nbf) instant, through the same process.  Every answer is
+// stamped with the side of the instant the clock saw it on (jwt compares time.Now() with the claim, so does this).
+func (s *VerifC16Session) runSeq(c VerifC16Case) VerifC16Obs {
+	obs := VerifC16Obs{Outcome: "ok", Oauth: s.jwks != nil, Res: []VerifC16Res{}}
+	if err := s.setAcl(c.Token.Sub, c.Acl, c.NoAcl, c.Direct); err != nil {
+		return VerifC16Obs{Outcome: "setup-error", Detail: err.Error()}
+	}
+	const margin = 60 * time.Millisecond
+	for attempt := 0; attempt < 4; attempt++ {
+		obs.Res = obs.Res[:0]
+		tok := c.Token
+		at := time.Now().Unix() + 2
+		if c.Bound == "nbf" {
+			tok.NbfAt = at
+		} else {
+			tok.ExpAt = at
+		}
+		bt := time.Unix(at, 0)
+		auth, err := s.authHeader(tok)
+		if err != nil {
+			return VerifC16Obs{Outcome: "setup-error", Detail: err.Error()}
+		}
+		good := true
+		phase := func(want int) {
+			for _, r := range c.Reqs {
+				t0 := time.Now()
+				st, route, _ := s.do(r.M, r.P, auth, "", nil)
+				t1 := time.Now()
+				ph := 1
+				if t1.Before(bt.Add(-margin)) {
+					ph = 0
+				} else if !t0.Before(bt.Add(margin)) {
+					ph = 2
+				}
+				if ph != want {
+					good = false
+				}
+				obs.Res = append(obs.Res, VerifC16Res{M: r.M, P: r.P, St: st, Route: route, Ph: ph})
+			}
+		}
+		phase(0)
+		if d := time.Until(bt.Add(300 * time.Millisecond)); d > 0 {
+			time.Sleep(d)
+		}
+		phase(2)
+		if good {
+			break
 		}
 	}
 	return obs
